@@ -16,7 +16,7 @@ CONSTANTS
   MaxTraceK = 3
   BUG_STALE_TC = FALSE
   BUG_NESTED_FLAGS = FALSE
-  OPS = {"clear", "clone", "clonef", "collect", "drop", "mark", "new", "set", "unwrap"}
+  OPS = {"clear", "clone", "clonef", "collect", "drop", "mark", "new", "put", "set", "take", "unwrap"}
 INVARIANT NoViolation
 INVARIANT StructInv
 VIEW View
